@@ -685,3 +685,36 @@ def check_C20(c):
     c.assumptions += ["a STATUS reply without message / language tag is accepted by the client on purpose (many servers send it); 'malformed => no value' is checked for HANDLE/DATA/NAME/ATTRS replies",
                       "allocation bound 64 x reply + 300 KB (the operation's own buffers included); measured around the call"]
     return c.finish()
+
+
+def check_C05(c):
+    c.model("FsModel", "FsModel.quick.cfg", note="every reachable tree with <= 3 nodes over names {a,b,c} (files, directories, links to siblings incl. dangling and self-referential) x every operation instance; structural invariant of the tree")
+    if c.tier == "thorough":
+        c.model("FsModel", "FsModel.thorough.cfg", timeout=6000, note="<= 4 nodes")
+    scen = export_scen(c, "FsModelScen", "FsModelScen.cfg", 150 if c.tier == "quick" else 4000, lambda s, i: s, "scen_fs.json", depth=14)
+    rc, out, path = c.run("TestVerif_FsDiff", env={"VERIF_SCEN": scen}, timeout=6000)
+    ev = vlib.read_ndjson(path)
+    steps = [e for e in ev if e.get("ev") == "FsStep"]
+    c.cov["evaluations"] += len(steps)
+    c.cov["distinct_nontrivial"] += len({(e.get("op"), json.dumps(e.get("p")), json.dumps(e.get("q")), e.get("k"), e.get("ocat"), e.get("t")) for e in steps if e.get("ocat") == "ok" or e.get("mcat")})
+    # the model against its arbiter (package os): disagreements are model errors - reported, never a verdict
+    modelled = [e for e in steps if e.get("mcat")]
+    drift = [e for e in modelled if e.get("mcat") != e.get("ocat")]
+    c.cov["harness"]["model_steps"] = len(modelled)
+    c.cov["harness"]["model_disagrees_with_os"] = len(drift)
+    c.cov["harness"]["model_drift_samples"] = [{k: e.get(k) for k in ("op", "p", "q", "k", "mcat", "ocat", "oerr")} for e in drift[:5]]
+    c.cov["rule"] = ("a case is one step of an operation sequence over names {a,b,c} at depth <= 2 (random walks of FsModel.tla with the model's prediction, and seeded sequences that add "
+                     "MkdirAll/RemoveAll/Glob/Walk/Chtimes/RealPath/StatVFS), executed through Client+Server and with package os on twin trees, absolute and working-directory-relative; "
+                     "non-trivial = the os call succeeded or the step is modelled")
+    found = c.validate("TraceFs", "TraceFs.cfg", path)
+    for f in found:
+        e = f["line"]
+        head = f["trace"][0]
+        msg = f["state"].get("c05", "").strip('"')
+        what = "category" if "category" in msg else ("tree" if "tree" in msg else "value")
+        c.violation("Inv_C05,op=%s,%s,rel=%s" % (e.get("op"), what, head.get("rel")),
+                    "%s: %s" % (msg, json.dumps({k: e.get(k) for k in ("op", "p", "q", "k", "scat", "ocat", "sval", "oval", "treeeq", "serr", "oerr")})[:500]),
+                    {"module": "TraceFs", "step": e, "sequence": [x for x in f["trace"] if x.get("ev") == "FsStep"][:20], "tlc": msg})
+    c.assumptions += ["package os on this kernel / file system, uid 0, is the arbiter; the permission category is reached through EPERM (hard link to a directory)",
+                      "RMDIR is compared with os.Remove (the call the server maps it to); RemoveAll of a missing path is not compared (documented difference)"]
+    return c.finish()
